@@ -36,7 +36,7 @@ Inductive token :=
 | TOther.                                 (* any other Token subclass (Comma, parentheses, CloseBracket) *)
 
 (* what an operator's `execute` lambda does (the translator maps each lambda body to one of these) *)
-Inductive unop := UPos | UNeg | UInvert | UNot.
+Inductive unop := UId (* lambda a: a *) | UPos | UNeg | UInvert | UNot.
 Inductive binop := BMul | BDiv | BFloorDiv | BMod | BAdd | BSub | BLShift | BRShift | BBitAnd | BBitXor | BBitOr.
 Inductive cmpop := CIn | CLt | CGt | CLe | CGe | CEq | CNe.
 Inductive opsem :=
